@@ -17,7 +17,7 @@ type indexSite struct {
 	expr  string // rendered expression, e.g. "kv[1]" or "endpoint[0:3]"
 	safe  bool
 	why   string
-	param bool // the indexed value derives from a string/slice parameter (input)
+	param bool   // the indexed value derives from a string/slice parameter (input)
 	shape string // the expression with the indexed value written as $ and its type in front: "[]*T|$[(len($)-1)]"
 }
 
